@@ -325,7 +325,8 @@ def correspond(model: core.Model, backend: str, pos: str, v: Any, r, calib: Cali
         tree, leaves = v, [["c", var]]
     else:
         stem = var[2:]  # the counter
-        tree, leaves = "t", [[v, "_" + v + stem]]
+        # cpp_vars.unique_name: the member is "_" + the label with non-identifier characters replaced + the counter
+        tree, leaves = "t", [[v, "_" + "".join(c if (c.isascii() and (c.isalnum() or c == "_")) else "_" for c in v) + stem]]
     mr = model.call("c18.book", [backend, tree, leaves])
     lines = list(mr[0]) + [mr[1]]
     if pos == "dictkey":
